@@ -238,12 +238,15 @@ def create_redist_dict(
     assert allocated <= group_resource, (group_resource, allocated)
 
     if allocated < group_resource:
+      # Hand out the leftover one unit at a time, and count every unit that
+      # is handed out, so that the group never exceeds its budget.
       extra = group_resource - allocated
       for (key, _) in sorted_scores:
-        realloc[key] = min(realloc[key] + 1, dim)
-        extra = extra - 1 if realloc[key] + 1 < dim else extra
         if extra <= 0:
           break
+        if realloc[key] < dim:
+          realloc[key] += 1
+          extra -= 1
 
     redist_dict = alloc_fn(redist_dict, group, realloc)
 
